@@ -126,6 +126,45 @@ def shrink_program(line, fails):
     return best
 
 
+def explore(line, bound=2, max_runs=3000, batch=200):
+    """Stateless bounded-preemption DFS over the schedules of one program.  Yields (rec, explicit line)."""
+    base = line.split("|")
+    seen = {()}
+    stack = [[]]
+    runs = 0
+    while stack and runs < max_runs:
+        todo, stack = stack[-batch:], stack[:-batch]
+        lines = []
+        for n, pref in enumerate(todo):
+            f = list(base)
+            f[0] = "x%d" % (runs + n)
+            f[4] = ",".join(map(str, pref))
+            lines.append("|".join(f))
+        recs = conc.run_progs(lines)
+        runs += len(lines)
+        for rec, l, pref in zip(recs, lines, todo):
+            yield rec, l
+            if not rec["K"] or rec["N"] is None:
+                continue
+            taken = [int(x) for x in rec["K"].split(",") if x != ""]
+            enabled = [[int(y) for y in e.split(".") if y != ""] for e in rec["N"].split(",")]
+            # preemptions so far along `taken`
+            pre = [0] * (len(taken) + 1)
+            for i in range(1, len(taken)):
+                pre[i + 1] = pre[i] + (1 if taken[i] != taken[i - 1] and taken[i - 1] in enabled[i] else 0)
+            for i in range(len(pref), len(taken)):
+                for t in enabled[i]:
+                    if t == taken[i]:
+                        continue
+                    cost = pre[i] + (1 if i > 0 and t != taken[i - 1] and taken[i - 1] in enabled[i] else 0)
+                    if cost > bound:
+                        continue
+                    newp = tuple(taken[:i] + [t])
+                    if newp not in seen:
+                        seen.add(newp)
+                        stack.append(list(newp))
+
+
 def run_conc_property(pid, tier, seed, replay, *, judges, classify=None, n_quick=1500, n_thorough=30000,
                       gen_kw=None, flags="drain,mode=O", corr=True, extra_lines=None, rule=""):
     """judges: list of (name, fn(rec, prog, info) -> text|None).  classify(text, rec, prog, info) -> 'Kx ...' | None"""
@@ -148,6 +187,17 @@ def run_conc_property(pid, tier, seed, replay, *, judges, classify=None, n_quick
         lines = ["q%d|" % i + l.split("|", 1)[1] for i, l in enumerate(lines)]
     recs = conc.run_progs(lines)
     by_id = {l.split("|", 1)[0]: l for l in lines}
+    explored = 0
+    if tier == "thorough" and not replay:
+        # bounded-preemption DFS (bound 2) over ALL schedules of small programs: corpus witnesses + 2-thread programs
+        small = [l for l in lines if len(conc.parse_prog(l)["threads"]) == 2 and sum(len(t) for t in conc.parse_prog(l)["threads"]) <= 3][:40]
+        for l in corpus_progs(pid) + small:
+            for rec, el in explore(l, bound=2, max_runs=1500):
+                rec = dict(rec)
+                rec["id"] = "e%d" % explored
+                by_id[rec["id"]] = el
+                recs.append(rec)
+                explored += 1
     corr_bad, judge_bad, known = [], [], {}
     steps = 0
     distinct = set()
@@ -184,7 +234,8 @@ def run_conc_property(pid, tier, seed, replay, *, judges, classify=None, n_quick
                               "distinct by (program, schedule)")
     ck.cov["samples"] = [dict(program=lines[i], schedule=recs[i]["K"]) for i in range(min(2, len(recs)))]
     ck.cov["traces_validated_against_impl"] = len(recs)
-    ck.extra["input_distribution"] = dict(programs=len(lines), threads_histogram=thr_hist, scheduled_steps=steps)
+    ck.extra["input_distribution"] = dict(programs=len(lines), threads_histogram=thr_hist, scheduled_steps=steps,
+                                          dfs_bounded_preemption_runs=explored)
     if len(recs) != len(lines):
         ck.oblige("harness ran all programs", False, "%d of %d" % (len(recs), len(lines)))
     if corr:
